@@ -8,10 +8,12 @@ Reading of the statement in the models
   * `layered` is the spec-shaped, newest-first reading of a stack (the newest source saying something about `p`
     decides; lists accumulate new-first without repeats; a source replacing a prefix of `p` hides everything older).
   * one bank: `addAll Bank.empty cs` registers the class definitions `cs` in list order (import/registration order);
-    the process-level model (`get`) takes the iteration order of the path set as the parameter `order`.
+    the process-level model (`get`) takes the iteration order of the path set as the parameter `order` and — like the
+    repaired `Bank.get` — sorts it (`C20_lookup_order_free`: the parameter does not matter).
 -/
 import ForML.Lemmas.C20Conf
 import ForML.Lemmas.C20Bank
+import ForML.Lemmas.C20Comm
 
 namespace ForML.Conf
 
@@ -269,16 +271,61 @@ the missing-provider error. -/
 theorem C20_missing_exact (w : World) (st : St) (iface : ClassId) (a : Nat)
     (hp : (getBank iface st.banks).paths = []) (hl : lookupRef (.alias a) (getBank iface st.banks).provider = none) :
     (get w st iface (.alias a) []).2 = .error .missing := by
-  simp [get, hl, todoPaths, arrange, refPaths, hp, getLoop, finish]
+  simp [get, hl, todoPaths, arrange, refPaths, hp, getLoop, finish, sortPaths]
 
-/-- Lazy lookup at full strength: the outcome does not depend on the iteration order of the path set. -/
-def C20_lookup_full : Prop :=
-  ∀ (w : World) (st : St) (iface : ClassId) (r : Ref) (o1 o2 : List Mod),
-    validOrder (getBank iface st.banks).paths o1 = true → validOrder (getBank iface st.banks).paths o2 = true →
-    (get w st iface r o1).2 = (get w st iface r o2).2
+/-- In a world without registration defects (`worldClean`: no alias on an abstract class, no reference shared by two
+class identities) whose registered search paths exist, an unknown reference raises exactly the missing-provider error —
+from every sound state (any import history) and under every pop order. -/
+theorem C20_missing_clean (w : World) (st : St) (iface : ClassId) (r : Ref) (order : List Mod)
+    (hw : worldClean w = true) (hs : StSound (InWorld w) st)
+    (hp : (getBank iface st.banks).paths.all (fun p => importable w p.mod) = true)
+    (hun : ∀ c, InWorld w c → c.abstract = false → r ∉ refs c) :
+    (get w st iface r order).2 = .error .missing := by
+  have hunk : ∀ (st' : St), StSound (InWorld w) st' → lookupRef r (getBank iface st'.banks).provider = none := by
+    intro st' hs'
+    cases hl : lookupRef r (getBank iface st'.banks).provider with
+    | none => rfl
+    | some i =>
+      obtain ⟨c, hc, ha, hr, _⟩ := getBank_sound hs' iface r i (lookupRef_mem hl)
+      exact absurd hr (hun c hc ha)
+  unfold get
+  rw [hunk st hs]
+  simp only
+  have hexp : ∀ p ∈ todoPaths (getBank iface st.banks) r order, p.explicit = true → importable w p.mod = true := by
+    intro p hm he
+    exact (List.all_eq_true.1 hp) p (mem_todoPaths hm he)
+  have h1 := getLoop_sound w iface r (todoPaths (getBank iface st.banks) r order) st hs
+  have h2 := getLoop_clean hw iface r (todoPaths (getBank iface st.banks) r order) st hs hexp
+  cases hl : getLoop w iface r st (todoPaths (getBank iface st.banks) r order) with
+  | mk st' e =>
+    rw [hl] at h1 h2
+    simp only at h2
+    subst h2
+    simp only [finish, hunk st' h1]
 
-/-- the world of the known finding: interface `Base(path=[pk1, pk2])` in module 0, `pk1/dup.py` and `pk2/dup.py`
-each defining a concrete class with alias `dup` (= 5) -/
+/-- non-vacuity of `C20_missing_clean`: a clean two-package world, the state after importing the interface, an unknown
+alias and an unknown qualified name -/
+example :
+    let w : World :=
+      [ (⟨0, none⟩, ⟨[], [⟨⟨⟨0, none⟩, 0⟩, none, true, [], [⟨1, none⟩, ⟨2, none⟩]⟩]⟩),
+        (⟨1, none⟩, ⟨[5], []⟩), (⟨2, none⟩, ⟨[], []⟩),
+        (⟨1, some 5⟩, ⟨[], [⟨⟨⟨1, some 5⟩, 1⟩, some 5, false, [⟨⟨0, none⟩, 0⟩], []⟩]⟩),
+        (⟨2, some 6⟩, ⟨[], [⟨⟨⟨2, some 6⟩, 1⟩, some 6, false, [⟨⟨0, none⟩, 0⟩], []⟩]⟩) ]
+    let st := runImports w St.empty [⟨0, none⟩]
+    worldClean w = true ∧ (getBank ⟨⟨0, none⟩, 0⟩ st.banks).paths.all (fun p => importable w p.mod) = true ∧
+      (get w st ⟨⟨0, none⟩, 0⟩ (.alias 7) [⟨1, none⟩, ⟨2, none⟩]).2 = .error .missing ∧
+      (get w st ⟨⟨0, none⟩, 0⟩ (.qual ⟨⟨1, some 5⟩, 9⟩) [⟨2, none⟩, ⟨1, none⟩]).2 = .error .missing ∧
+      (get w st ⟨⟨0, none⟩, 0⟩ (.alias 6) [⟨2, none⟩, ⟨1, none⟩]).2 = .ok ⟨⟨2, some 6⟩, 1⟩ := by decide
+
+/-- Lazy lookup at full strength (repaired code, fix C20-sorted-search-paths): outcome and resulting state do not
+depend on the iteration order of the path set (string hashing, PYTHONHASHSEED, insertion history). -/
+theorem C20_lookup_order_free (w : World) (st : St) (iface : ClassId) (r : Ref) (o1 o2 : List Mod)
+    (h1 : validOrder (getBank iface st.banks).paths o1 = true) (h2 : validOrder (getBank iface st.banks).paths o2 = true) :
+    get w st iface r o1 = get w st iface r o2 := by
+  simp only [get, todoPaths_order_free _ r o1 o2 h1 h2]
+
+/-- the world of the (fixed) finding C20-F1: interface `Base(path=[pk1, pk2])` in module 0, `pk1/dup.py` and
+`pk2/dup.py` each defining a concrete class with alias `dup` (= 5) -/
 def witnessWorld : World :=
   [ (⟨0, none⟩, ⟨[], [⟨⟨⟨0, none⟩, 0⟩, none, true, [], [⟨1, none⟩, ⟨2, none⟩]⟩]⟩),
     (⟨1, none⟩, ⟨[], []⟩), (⟨2, none⟩, ⟨[], []⟩),
@@ -290,9 +337,22 @@ def witnessState : St :=
   | some (st, _) => st
   | none => St.empty
 
-/-- …which the code that exists does not satisfy: the same alias in two discoverable modules resolves to
-`pk2.dup:Impl` under one order and to `pk1.dup:Impl` under the other (known finding C20-F1). -/
-theorem C20_lookup_counterexample : ¬ C20_lookup_full := by
+/-- `Bank.get` as it was before the fix: the search list is the set in its iteration order, unsorted -/
+def getUnsorted (w : World) (st : St) (iface : ClassId) (r : Ref) (order : List Mod) : St × Res :=
+  match lookupRef r (getBank iface st.banks).provider with
+  | some c => (st, .ok c)
+  | none =>
+    let base := arrange (getBank iface st.banks).paths order
+    finish iface r (getLoop w iface r st (base ++ refPaths r base).reverse)
+
+def C20_lookup_unsorted_full : Prop :=
+  ∀ (w : World) (st : St) (iface : ClassId) (r : Ref) (o1 o2 : List Mod),
+    validOrder (getBank iface st.banks).paths o1 = true → validOrder (getBank iface st.banks).paths o2 = true →
+    (getUnsorted w st iface r o1).2 = (getUnsorted w st iface r o2).2
+
+/-- Why the fix was needed: without the `sorted`, the same alias in two discoverable modules resolves to
+`pk2.dup:Impl` under one iteration order and to `pk1.dup:Impl` under the other (finding C20-F1, now fixed). -/
+theorem C20_lookup_unsorted_counterexample : ¬ C20_lookup_unsorted_full := by
   intro h
   have := h witnessWorld witnessState ⟨⟨0, none⟩, 0⟩ (.alias 5) [⟨1, none⟩, ⟨2, none⟩] [⟨2, none⟩, ⟨1, none⟩]
     (by decide) (by decide)
@@ -304,28 +364,78 @@ def uniqueRef (w : World) (r : Ref) : Bool :=
   let cs := (w.flatMap (fun e => e.2.classes)).filter (fun c => !c.abstract && (refs c).contains r)
   cs.all fun c => cs.all fun d => c.id == d.id
 
-/-- What does hold for every world, state and pair of pop orders: if no two discoverable classes share the
-reference, two lookups that both return a class return the same class. (One of them may still raise because a
-module imported on its way is broken; that residue is part of the finding.) -/
-theorem C20_lookup_partial (w : World) (st : St) (iface : ClassId) (r : Ref) (o1 o2 : List Mod)
-    (hs : StSound (InWorld w) st) (hu : uniqueRef w r = true) (i j : ClassId)
-    (h1 : (get w st iface r o1).2 = .ok i) (h2 : (get w st iface r o2).2 = .ok j) : i = j := by
+/-- The same single class whatever was imported before, in whatever order: for every world in which the reference is
+carried by one class identity, any two lookups — from any two (sound) process states, i.e. after any two import
+histories, and under any pop orders — that return a class return the same class. -/
+theorem C20_lookup_single_class (w : World) (st st' : St) (iface iface' : ClassId) (r : Ref) (o1 o2 : List Mod)
+    (hs : StSound (InWorld w) st) (hs' : StSound (InWorld w) st') (hu : uniqueRef w r = true) (i j : ClassId)
+    (h1 : (get w st iface r o1).2 = .ok i) (h2 : (get w st' iface' r o2).2 = .ok j) : i = j := by
   obtain ⟨c, ⟨mc, dc, hmc, hcc⟩, hca, hcr, hci⟩ := (get_sound w st iface r o1 hs).2 i h1
-  obtain ⟨d, ⟨md, dd, hmd, hdd⟩, hda, hdr, hdi⟩ := (get_sound w st iface r o2 hs).2 j h2
+  obtain ⟨d, ⟨md, dd, hmd, hdd⟩, hda, hdr, hdi⟩ := (get_sound w st' iface' r o2 hs').2 j h2
   simp only [uniqueRef, List.all_eq_true, List.mem_filter, List.mem_flatMap, beq_iff_eq, Bool.and_eq_true,
     Bool.not_eq_true', List.contains_eq_mem, decide_eq_true_eq] at hu
   rw [← hci, ← hdi]
   exact hu c ⟨⟨(mc, dc), hmc, hcc⟩, hca, hcr⟩ d ⟨⟨(md, dd), hmd, hdd⟩, hda, hdr⟩
 
+/-- …in particular after any two import histories (any modules, any order, failing imports included) from a fresh
+process: the reference resolves to one and the same class or not at all. -/
+theorem C20_lookup_import_order (w : World) (ms ms' : List Mod) (iface iface' : ClassId) (r : Ref) (o1 o2 : List Mod)
+    (hu : uniqueRef w r = true) (i j : ClassId)
+    (h1 : (get w (runImports w St.empty ms) iface r o1).2 = .ok i)
+    (h2 : (get w (runImports w St.empty ms') iface' r o2).2 = .ok j) : i = j :=
+  C20_lookup_single_class w _ _ iface iface' r o1 o2 (runImports_sound w ms _ (stSound_empty _))
+    (runImports_sound w ms' _ (stSound_empty _)) hu i j h1 h2
+
+/-- Lookup cannot tell apart two process states with the same bindings, the same *sets* of search paths and the same
+set of imported modules (`StEq`), however they were built up: same outcome — class or error — and again
+indistinguishable states (so this extends to any sequence of lookups). -/
+theorem C20_lookup_state_equiv (w : World) (st st' : St) (iface : ClassId) (r : Ref) (o o' : List Mod)
+    (h : StEq st st') (ho : validOrder (getBank iface st.banks).paths o = true)
+    (ho' : validOrder (getBank iface st'.banks).paths o' = true) :
+    (get w st iface r o).2 = (get w st' iface r o').2 ∧ StEq (get w st iface r o).1 (get w st' iface r o').1 :=
+  get_congr w iface r h ho ho'
+
+/-- Whatever the import order, at full strength (repaired code): if a list of `import` statements succeeds from a
+fresh process, then so does every permutation of it, and every later `Service[reference]` — by alias or by qualified
+name, known or unknown, under any iteration orders of the path sets — has the same outcome (the same class or the same
+error) after both. -/
+theorem C20_import_order_free (w : World) (ms ms' : List Mod) (hp : ms.Perm ms') (s : St)
+    (hs : importAll w St.empty ms = some s) :
+    ∃ s', importAll w St.empty ms' = some s' ∧ StEq s s' ∧
+      ∀ (iface : ClassId) (r : Ref) (o o' : List Mod), validOrder (getBank iface s.banks).paths o = true →
+        validOrder (getBank iface s'.banks).paths o' = true → (get w s iface r o).2 = (get w s' iface r o').2 := by
+  obtain ⟨s', hs', hE⟩ := importAll_perm w hp St.empty St.empty s (StEq.refl _) hs
+  exact ⟨s', hs', hE, fun iface r o o' ho ho' => (get_congr w iface r hE ho ho').1⟩
+
+/-- non-vacuity of `C20_import_order_free`: three modules of two packages (an abstract intermediate in one of them)
+imported in two orders from a fresh process — both succeed, and the representations of the two states differ -/
+example :
+    let w : World :=
+      [ (⟨0, none⟩, ⟨[], [⟨⟨⟨0, none⟩, 0⟩, none, true, [], [⟨1, none⟩, ⟨2, none⟩]⟩]⟩),
+        (⟨1, none⟩, ⟨[5], []⟩), (⟨2, none⟩, ⟨[], []⟩),
+        (⟨1, some 5⟩, ⟨[], [⟨⟨⟨1, some 5⟩, 1⟩, some 5, false, [⟨⟨0, none⟩, 0⟩], []⟩]⟩),
+        (⟨1, some 7⟩, ⟨[], [⟨⟨⟨1, some 7⟩, 2⟩, none, true, [⟨⟨0, none⟩, 0⟩], [⟨3, none⟩]⟩,
+                            ⟨⟨⟨1, some 7⟩, 1⟩, some 7, false, [⟨⟨1, some 7⟩, 2⟩, ⟨⟨0, none⟩, 0⟩], []⟩]⟩),
+        (⟨2, some 6⟩, ⟨[], [⟨⟨⟨2, some 6⟩, 1⟩, some 6, false, [⟨⟨0, none⟩, 0⟩], []⟩]⟩) ]
+    let ms : List Mod := [⟨0, none⟩, ⟨1, some 5⟩, ⟨1, some 7⟩, ⟨2, some 6⟩]
+    let ms' : List Mod := [⟨0, none⟩, ⟨2, some 6⟩, ⟨1, some 7⟩, ⟨1, some 5⟩]
+    ms.Perm ms' ∧ (importAll w St.empty ms).isSome = true ∧ (importAll w St.empty ms').isSome = true ∧
+      importAll w St.empty ms ≠ importAll w St.empty ms' := by decide
+
 /-- non-vacuity: in the witness world the qualified reference of `pk1.dup:Impl` is unique, the state after importing
-the interface is sound-by-construction input, and both orders return that class -/
+the interface is sound-by-construction input, both orders return that class; the alias `dup` is not unique and now
+resolves to the same class (`pk2.dup:Impl`, the later name in sorted order is popped first) under both orders -/
 example :
     uniqueRef witnessWorld (.qual ⟨⟨1, some 5⟩, 1⟩) = true ∧
       (get witnessWorld witnessState ⟨⟨0, none⟩, 0⟩ (.qual ⟨⟨1, some 5⟩, 1⟩) [⟨1, none⟩, ⟨2, none⟩]).2
         = .ok ⟨⟨1, some 5⟩, 1⟩ ∧
       (get witnessWorld witnessState ⟨⟨0, none⟩, 0⟩ (.qual ⟨⟨1, some 5⟩, 1⟩) [⟨2, none⟩, ⟨1, none⟩]).2
         = .ok ⟨⟨1, some 5⟩, 1⟩ ∧
-      uniqueRef witnessWorld (.alias 5) = false := by decide
+      uniqueRef witnessWorld (.alias 5) = false ∧
+      validOrder (getBank ⟨⟨0, none⟩, 0⟩ witnessState.banks).paths [⟨2, none⟩, ⟨1, none⟩] = true ∧
+      (get witnessWorld witnessState ⟨⟨0, none⟩, 0⟩ (.alias 5) [⟨1, none⟩, ⟨2, none⟩]).2 = .ok ⟨⟨2, some 5⟩, 1⟩ ∧
+      (get witnessWorld witnessState ⟨⟨0, none⟩, 0⟩ (.alias 5) [⟨2, none⟩, ⟨1, none⟩]).2 = .ok ⟨⟨2, some 5⟩, 1⟩ := by
+  decide
 
 /-- non-vacuity of `C20_bank_order` / `C20_collision_rejected`: an abstract intermediate, two aliased concrete classes -/
 example :
